@@ -685,6 +685,16 @@ pub fn c04_passes(x: &str, cfg: &Cfg, ctx: &mut Ctx) {
 /// deterministic work counters stay below c*n^3 (c fixed from the small sizes)
 pub fn c04_scaling(kind: usize, cfg: &Cfg, sizes: &[usize], ctx: &mut Ctx) {
     let mut base: Option<(f64, f64)> = None; // work per n^3 at the calibration sizes (parser, wrapper)
+    // cost of the fixed prefix of the "nest after a long file" constructs
+    let (prefix_p, prefix_w) = if kind >= crate::alphabet::SCALING_PREFIXED {
+        let x = crate::alphabet::scaling_input(kind, 0);
+        pasfmt_core::verif::reset();
+        let _ = ctx.fmt(cfg, &x);
+        let c = pasfmt_core::verif::snapshot();
+        ((c.parser_lookups + c.parser_tokens) as f64, c.wrapper_nodes as f64)
+    } else {
+        (0.0, 0.0)
+    };
     for (k, &n) in sizes.iter().enumerate() {
         if k > 0 {
             ctx.sub_eval();
@@ -693,8 +703,8 @@ pub fn c04_scaling(kind: usize, cfg: &Cfg, sizes: &[usize], ctx: &mut Ctx) {
         pasfmt_core::verif::reset();
         let out = ctx.fmt(cfg, &x);
         let c = pasfmt_core::verif::snapshot();
-        let parser = (c.parser_lookups + c.parser_tokens) as f64;
-        let wrapper = c.wrapper_nodes as f64;
+        let parser = ((c.parser_lookups + c.parser_tokens) as f64 - prefix_p).max(0.0);
+        let wrapper = (c.wrapper_nodes as f64 - prefix_w).max(0.0);
         let cube = (n as f64).powi(3).max(1.0);
         ctx.nontrivial();
         let _ = out;
